@@ -483,15 +483,18 @@ Section WithFam.
                  run_cached fuel c d s (Stub c sm) = (s', r') ->
                  inv s' /\ mono st s' /\ (forall k, r' = DRun k -> k = code_of c m d /\ stored s' c m d k)).
       { intros s sm s' r' Is Ms Hn Hd R. cbn [run_cached] in R.
+        assert (NMs: name_ok c (stub_target sm)).
+        { unfold stub_target. destruct d as [dd|]; [apply NK0; destruct (Hd ltac:(discriminate)) as (_ & E); rewrite E; reflexivity|].
+          rewrite (Hn eq_refl). exact NM. }
         destruct (build F d5 (bfuel F) s false c (stub_target sm) None) as [s1 [e|]] eqn:B.
         - inversion R; subst.
-          destruct (build_inv _ SU _ _ _ _ _ _ _ Is (or_introl eq_refl) (NK0 (stub_target sm) eq_refl) B) as (I1 & M1 & _).
+          destruct (build_inv _ SU _ _ _ _ _ _ _ Is (or_introl eq_refl) NMs B) as (I1 & M1 & _).
           split; [exact I1|]. split; [eapply mono_trans; eauto|]. intros k H; discriminate.
-        - destruct (build_inv _ SU _ _ _ _ _ _ _ Is (or_introl eq_refl) (NK0 (stub_target sm) eq_refl) B) as (I1 & M1 & K1).
+        - destruct (build_inv _ SU _ _ _ _ _ _ _ Is (or_introl eq_refl) NMs B) as (I1 & M1 & K1).
           assert (P1: present s1 c sm).
           { destruct d as [dd|].
             - destruct (Hd ltac:(discriminate)) as (_ & E). specialize (K1 eq_refl eq_refl).
-              replace (stub_target sm) with sm in K1; [exact K1|]. rewrite E. reflexivity.
+              exact K1.
             - rewrite (Hn eq_refl). apply M1, Ms, P. }
           assert (NM1: name_ok c sm).
           { destruct d as [dd|]; [apply NK0; destruct (Hd ltac:(discriminate)) as (_ & E); rewrite E; reflexivity|].
@@ -776,8 +779,8 @@ Definition resolved (F: fam) (st: state) : Prop := forall c, unresolved F st c =
 Definition pending (st: state) (c: cid) (m: mname) : nat :=
   match get_slot st c m with Some (Stub _ _) => 1 | _ => 0 end.
 
-Lemma stub_target_id m : m_spec m = 0 -> stub_target m = m.
-Proof. destruct m; cbn; intros ->; reflexivity. Qed.
+Lemma stub_target_id m : stub_target m = m.
+Proof. reflexivity. Qed.
 
 Lemma install_bound F st c m d x st' r : install F st c m d x = (st', r) -> bound st' = bound st.
 Proof.
@@ -862,16 +865,17 @@ Section Termination.
   Proof. intros G. rewrite dispatch_S, (mro_own F _ _ _ _ G). reflexivity. Qed.
 
   (* After fix D5 a first call needs at most 1 + pending re-dispatch steps: with that much fuel the result
-     is never "out of fuel" and more fuel does not change it.  (Hypotheses: the method has no type
-     arguments - see lazy_specialisation_diverges -, all class names are bound, and no dialect cache
+     is never "out of fuel" and more fuel does not change it, for every method name incl. the
+     specialised ones `__mashumaro_*_<md5>__` (after fix e775114 the stub rebuilds the very method it stands
+     for; see lazy_specialisation_agrees).  (Hypotheses: all class names are bound, and no dialect cache
      holds a stub - which no reachable state after the definitions does.) *)
   Theorem first_call_terminates st c m d fuel :
-    slot_wf st -> no_cache_stub st -> resolved F st -> m_spec m = 0 -> get_slot st c m <> None ->
+    slot_wf st -> no_cache_stub st -> resolved F st -> get_slot st c m <> None ->
     1 + pending st c m <= fuel ->
     dispatch F true fuel st c m d = dispatch F true (1 + pending st c m) st c m d /\
     snd (dispatch F true fuel st c m d) <> DOOF.
   Proof.
-    intros SW N R SP OWN LE. unfold pending in *.
+    intros SW N R OWN LE. unfold pending in *.
     destruct (get_slot st c m) as [mt|] eqn:G; [|congruence].
     pose proof (mro_own F _ _ _ _ G) as GM.
     assert (RCI: forall f1 f2 s x, (forall sc sm, x <> Stub sc sm) ->
@@ -903,7 +907,7 @@ Section Termination.
     - destruct mt as [sc sm|kc km kd].
       + destruct (SW _ _ _ G) as [E|E]; [|discriminate]. inversion E; subst sc sm.
         destruct fuel as [|[|f]]; [lia|lia|]. cbn [plus].
-        rewrite (dispatch_S F true (S f)), (dispatch_S F true 1), GM. cbn [run_cached]. rewrite (stub_target_id m SP).
+        rewrite (dispatch_S F true (S f)), (dispatch_S F true 1), GM. cbn [run_cached]. rewrite (stub_target_id m).
         destruct (build F true (bfuel F) st false c m None) as [s1 [e|]] eqn:B.
         * split; [reflexivity|discriminate].
         * pose proof (build_installs _ _ _ _ _ B) as G1.
